@@ -52,13 +52,18 @@ Interesting == LET c == Ch
                                  \/ p[n] # 0 /\ Len(c[p[n]]) > 1 /\ c[p[n]][Len(c[p[n]])] = n
                                  \/ n = deepest}
 Roots == {n \in Nodes : p[n] = 0}
-PickNode(salt) == CASE Pick(1..3, <<salt, 0>>) = 1 -> Pick(Roots, salt)
+\* the first two queries of every instance start at the first root: together with BigLevels this guarantees that an
+\* instance more than 257 levels deep is asked with a level limit of 257 and of 258 whatever the draws are
+PickNode(salt) == CASE salt[1] <= 2 /\ salt[2] = 1 -> 1
+                    [] Pick(1..3, <<salt, 0>>) = 1 -> Pick(Roots, salt)
                     [] Pick(1..2, <<salt, 1>>) = 1 -> Pick(Interesting, salt)
                     [] OTHER -> Pick(Nodes, salt)
 \* level limits: none, small ones, the ones around the height of the subtree, and -- where the subtree is that deep --
 \* the ones around 256
 BigLevels(s, salt) == LET h == Height(Ch, s) IN
-                      CASE Pick(1..3, <<salt, 0>>) = 1 -> NoMax
+                      \* (the first two queries of an instance are anchored rather than drawn: see Anchor)
+                      CASE salt[1] <= 2 /\ h > 257 -> 256 + salt[1]
+                        [] Pick(1..3, <<salt, 0>>) = 1 -> NoMax
                         [] h > 257 /\ Pick(1..4, <<salt, 1>>) > 1 -> Pick({256, 257, 258, 259, h - 1}, salt)
                         [] OTHER -> Pick({0, 1, 2, 3, 4, 5, 6, 7, 9, 10, 11, 12, 50, 256, 257} \cup {h - 1, h, h + 1}, salt)
 BigBound(salt) == Pick({NoBound, NoBound, 0, 1, 2, 3, 5, 9, 10, 11, k - 1, k, k + 1}, salt)
@@ -73,13 +78,13 @@ BigNext ==
               zlast' = [q |-> "common", ns |-> ns, res |-> CommonAncestors(Par, ns)]
          [] kind = "walk" -> zlast' = [q |-> "walk", s |-> s, e |-> e, res |-> Walk(Par, s, e)]
          [] kind = "iters" ->
-              \E st \in {IF OnlyNoMax THEN {} ELSE Fst(PickSub(Sub(s), 3, <<i, 5>>))},
-                 hide \in {IF OnlyNoMax THEN {} ELSE Fst(PickSub(Sub(s), 4, <<i, 6>>))},
+              \E st \in {IF OnlyNoMax \/ i <= 2 THEN {} ELSE Fst(PickSub(Sub(s), 3, <<i, 5>>))},
+                 hide \in {IF OnlyNoMax \/ i <= 2 THEN {} ELSE Fst(PickSub(Sub(s), 4, <<i, 6>>))},
                  ml \in {IF OnlyNoMax THEN NoMax ELSE BigLevels(s, <<i, 7>>)}:
               zlast' = [q |-> "iters", s |-> s, st |-> st, fl |-> Nodes \ hide, ml |-> ml,
                         res |-> AllIters(Par, Ch, s, Nodes \ hide, st, ml)]
          [] kind = "findall" ->
-              \E st \in {Fst(PickSub(Sub(s), 2, <<i, 5>>))}, hide \in {Fst(PickSub(Sub(s), 5, <<i, 6>>))},
+              \E st \in {IF i <= 2 THEN {} ELSE Fst(PickSub(Sub(s), 2, <<i, 5>>))}, hide \in {IF i <= 2 THEN {} ELSE Fst(PickSub(Sub(s), 5, <<i, 6>>))},
                  ml \in {BigLevels(s, <<i, 7>>)}, minc \in {BigBound(<<i, 8>>)}, maxc \in {BigBound(<<i, 9>>)}:
               zlast' = [q |-> "findall", s |-> s, st |-> st, fl |-> Nodes \ hide, ml |-> ml, minc |-> minc, maxc |-> maxc,
                         res |-> FindAll(Par, Ch, s, Nodes \ hide, st, ml, minc, maxc)]
